@@ -263,7 +263,20 @@ def run_unit(u: Unit, repo: Repo, timeout_ms=10000, seed=0) -> UnitResult:
         h = Harness(u, ctx, repo)
         ctx.harness = h
         try:
-            u.fn(h)
+            try:
+                u.fn(h)
+                for cb in list(getattr(ctx, 'at_end', [])):
+                    cb(h)               # end-of-path checks registered by models (e.g. state a model does not declare)
+            finally:
+                # purity of memoised functions (functools.cache / lru_cache): memoisation is only transparent if the result
+                # depends on the arguments alone, so a read of rebindable module state inside one is a violation of every
+                # "depends only on its inputs and the active configuration" reading of the unit's property
+                if ctx.memoised_entered and not getattr(ctx, '_memo_checked', False):
+                    ctx._memo_checked = True
+                    reads = sorted(set(ctx.memo_state_reads))
+                    h.clauses_stated.append('memoised-functions-depend-on-their-arguments-only')
+                    ctx.prove('memoised-functions-depend-on-their-arguments-only', z3.BoolVal(not reads),
+                              note='; '.join(f'{fn} reads {st}' for fn, st in reads) or 'memoised functions entered: ' + ', '.join(sorted(ctx.memoised_entered)))
         except InfeasiblePath:
             raise
         except LoopDone:
